@@ -9,11 +9,6 @@
 
 #include "asn1p_integer.h"
 
-#define ASN_INTEGER_MAX    \
-    (~((asn1c_integer_t)0) \
-     & ~((asn1c_integer_t)1 << (8 * sizeof(asn1c_integer_t) - 1)))
-#define ASN_INTEGER_MIN (-(ASN_INTEGER_MAX)-1)
-
 /*
  * Parse the number in the given string until the given *end position,
  * returning the position after the last parsed character back using the
